@@ -130,10 +130,22 @@ func goStructure(c *Check, v *valTerms, name string) string {
 		}
 	}
 	c.add(rule+".1", name+": a single WaitGroup", "the entry point uses exactly one sync.WaitGroup (so Add/Done/Wait refer to the same one)", nwg == 1, c.P.pos(pg.G.Root.Decl.Pos()), fmt.Sprintf("found %d", nwg))
-	// (a) Add(1) precedes each go within the iteration, one go per Add
-	c.within(pg, rule+".1", name+": Add(1) before go", "a goroutine is started only after wg.Add(1) in the same iteration", v.L, add, isGo)
-	c.noPathFrom(pg, rule+".1", name+": one goroutine per iteration", "at most one goroutine is started per iteration (the panic channel is sized for that)", isGo, edgeSources(pg, isGo), ptr(RangeNext(v.L)))
-	c.noPathFrom(pg, rule+".1", name+": every Add(1) is followed by its go", "after wg.Add(1) the iteration starts a goroutine (otherwise Wait would block forever)", add, edgeTargets(pg, AnyOf(RangeNext(v.L), RangeDone(v.L))), ptr(isGo))
+	// (a) Add(1) precedes each go within the iteration, one go per Add - or one Add(n) before the
+	// loop with n the number of iterations, every one of which starts its goroutine
+	bulk := CallKey("(*sync.WaitGroup).Add(" + wgKey + ", (len(" + v.chain + ") - 1))")
+	if len(edgeTargets(pg, add)) == 0 && len(edgeTargets(pg, bulk)) > 0 && strings.HasSuffix(v.L, "[_:(len("+v.chain+") - 1)]") {
+		c.mustPass(pg, rule+".1", name+": Add(1) before go", "the loop is entered only after wg.Add(number of iterations)", edgeTargets(pg, RangeNext(v.L)), bulk)
+		c.noPathFrom(pg, rule+".1", name+": Add(n) happens once", "wg.Add(n) is not repeated once the loop has started", RangeNext(v.L), edgeSources(pg, bulk), nil)
+		c.perIteration(pg, rule+".1", name+": every Add(1) is followed by its go", "every iteration starts its goroutine (the counter was raised for each of them; otherwise Wait would block forever)", v.L, isGo)
+		c.noPathFrom(pg, rule+".1", name+": one goroutine per iteration", "at most one goroutine is started per iteration (the panic channel is sized for that)", isGo, edgeSources(pg, isGo), ptr(RangeNext(v.L)))
+		add = bulk
+	} else {
+		c.within(pg, rule+".1", name+": Add(1) before go", "a goroutine is started only after wg.Add(1) in the same iteration", v.L, add, isGo)
+		c.noPathFrom(pg, rule+".1", name+": one goroutine per iteration", "at most one goroutine is started per iteration (the panic channel is sized for that)", isGo, edgeSources(pg, isGo), ptr(RangeNext(v.L)))
+	}
+	if add.Desc != bulk.Desc {
+		c.noPathFrom(pg, rule+".1", name+": every Add(1) is followed by its go", "after wg.Add(1) the iteration starts a goroutine (otherwise Wait would block forever)", add, edgeTargets(pg, AnyOf(RangeNext(v.L), RangeDone(v.L))), ptr(isGo))
+	}
 	// (b) the goroutine's first action is defer wg.Done()
 	inGo := func(l Label) bool { return l.Node != nil && l.Node.Inst != nil && l.Node.Inst.Name == "lit" }
 	anyInGo := LP{Desc: "any action of the goroutine", F: func(l Label) bool {
@@ -217,6 +229,14 @@ func goStructure(c *Check, v *valTerms, name string) string {
 			}
 		}
 		pan := pg.Panics()
+		if chTerm == "" {
+			// panic(<-ch): the receive is the operand of the panic itself
+			for _, p := range pan {
+				if len(p.Ret) > 0 && p.Ret[0].T != nil && p.Ret[0].T.Op == "call" && p.Ret[0].T.Name == "chanrecv" && len(p.Ret[0].T.Args) == 1 {
+					chTerm = p.Ret[0].T.Args[0].Key()
+				}
+			}
+		}
 		good := len(pan) > 0
 		for _, p := range pan {
 			if len(p.Ret) == 0 || p.Ret[0].T == nil || p.Ret[0].T.Key() != "chanrecv("+chTerm+")" {
@@ -225,7 +245,10 @@ func goStructure(c *Check, v *valTerms, name string) string {
 		}
 		c.add(rule+".2", name+": received panic is re-raised", "the value received from the panic channel is re-raised with panic(v) on the caller's goroutine", good && chTerm != "", posOf(pg, pan))
 		c.mustPass(pg, rule+".2", name+": re-raise after the join", "re-raising a forwarded panic", pan, wait)
-		sel := LP{Desc: "select on the panic channel", F: func(l Label) bool { return l.Kind == "select" }}
+		// a non-blocking look at the channel: select with default, or a test of len(ch)
+		sel := LP{Desc: "select on the panic channel", F: func(l Label) bool {
+			return l.Kind == "select" || (l.Kind == "atom" && chTerm != "" && (l.Key == "Empty("+chTerm+")" || strings.Contains(l.Key, "len("+chTerm+")")))
+		}}
 		c.mustPass(pg, rule+".2", name+": panic channel polled before returning", "returning the result slice", okRets, sel)
 		c.noPathFrom(pg, rule+".2", name+": polled after the join", "the panic channel is polled only after wg.Wait()", isGo, edgeSources(pg, sel), ptr(wait))
 		// close only deferred by the spawner
